@@ -378,23 +378,45 @@ def r3_sensitivity(ctx, repo, cls):
     if not is_abs:
         ctx.violated("R3", construct, where(mod, term), "per-child term %s is not an absolute difference" % text(term), key="formula")
         return
-    d = t.args[0]
+    # the difference with the locals of the design loop looked through (a centre cost read once before the children loop)
+    tstmt = next((s_ for s_ in cloop.body if any(x is term for x in ast.walk(s_))), cloop)
+    d = Terms(run).expand(t.args[0], at=tstmt, skip=(ch, ind))
     want = {"%s.costs[0]" % ind, "%s.costs[0]" % ch}
     if not (isinstance(d, ast.BinOp) and isinstance(d.op, ast.Sub) and {text(d.left), text(d.right)} == want):
-        ctx.violated("R3", construct, where(mod, term), "per-child term is |%s|, expected |f0(parent) - f0(child)| i.e. %s" % (text(d), sorted(want)), key="formula")
+        loose = {n_.id for n_ in ast.walk(d) if isinstance(n_, ast.Name)} - {ind, ch, "abs"}
+        if loose:
+            ctx.inconclusive("R3", construct, where(mod, term), "per-child term |%s|: %s not resolved" % (text(d), sorted(loose)), key="formula")
+        else:
+            ctx.violated("R3", construct, where(mod, term), "per-child term is |%s|, expected |f0(parent) - f0(child)| i.e. %s" % (text(d), sorted(want)), key="formula")
         return
-    # accumulator reset inside the per-design loop, before the child loop
+    # accumulator reset inside the per-design loop, before the child loop (in the block the child loop stands in)
+    def block_of(node, target):
+        for f_, v_ in ast.iter_fields(node):
+            if isinstance(v_, list) and v_ and isinstance(v_[0], ast.stmt):
+                if any(x is target for x in v_):
+                    return v_
+                for x in v_:
+                    r_ = block_of(x, target)
+                    if r_ is not None:
+                        return r_
+        return None
+    blk = block_of(ploop, cloop) or ploop.body
     init_ok = False
-    for s in ploop.body:
-        if s is cloop:
-            break
-        if isinstance(s, ast.Assign) and any(access_path(x) == acc for x in s.targets):
-            if acc_kind == "list" and isinstance(s.value, ast.List) and not s.value.elts:
-                init_ok = True
-            if acc_kind == "sum" and is_const(s.value) and const_value(s.value) == 0:
-                init_ok = True
+    for blk_ in ([blk] if blk is ploop.body else [ploop.body, blk]):
+        for s in blk_:
+            if s is cloop or (blk_ is ploop.body and any(x is cloop for x in ast.walk(s))):
+                break
+            if isinstance(s, ast.Assign) and any(access_path(x) == acc for x in s.targets):
+                if acc_kind == "list" and isinstance(s.value, ast.List) and not s.value.elts:
+                    init_ok = True
+                if acc_kind == "sum" and is_const(s.value) and const_value(s.value) == 0:
+                    init_ok = True
     if not init_ok:
-        ctx.violated("R3", construct, where(mod, ploop), "accumulator %s is not reset per design inside the design loop: sensitivities of earlier designs leak into later ones" % acc, key="formula")
+        inside = [s_ for s_ in stmts_of(ploop) if isinstance(s_, ast.Assign) and any(access_path(x) == acc for x in s_.targets)]
+        if inside:
+            ctx.inconclusive("R3", construct, where(mod, ploop), "where accumulator %s is reset inside the design loop is not recognised" % acc, key="formula")
+        else:
+            ctx.violated("R3", construct, where(mod, ploop), "accumulator %s is not reset per design inside the design loop: sensitivities of earlier designs leak into later ones" % acc, key="formula")
         return
     total = "sum(%s)" % acc if acc_kind == "list" else acc
     ctx.holds("R3", construct, where(mod, cloop), "sensitivity = %s over the children with term %s, reset per design" % (total, text(term)), key="formula")
